@@ -17,8 +17,16 @@ CHECKS = {
          'Every interleaving of up to 3 signals with every controller phase and every combination of refused/ignored restore writes in the model; the real controllers are cancelled at every phase with injected driver outcomes, the real daemon is killed with 1-3 real signals; the final registers of every run are checked.'),
  'C04': (MC, '6 (C04)', 'TLC closure of MC_C04 (cycle closed through exact direct / rate-limited / default-PID loop models, arbitrary prior curve trajectories) + TLC trace validation (exact loop conformance, settle/steady/step formulas) of real controllers under the fake clock',
          'Settling bound K(alg), steady value, step bound, monotone approach and bounded PID integral hold in every state of the closed model (all histories over {0,c,255}); the real loops conform step by step to the exact model.'),
+ 'C06': (MC, '6 (C06)', 'TLC check of the definitional module Curves.tla (range, saturation) + TLC validation of records of real curve evaluations (linear, steps, function graphs checked compositionally, PID on an exact rational grid) against Curves.tla',
+         'Every recorded evaluation of the real curves is checked against the exact definition with explicit float envelopes; sensor values cover the integer grid around every threshold and extreme floats.'),
+ 'C07': (MC, '6 (C07)', 'TLC check of monotonicity on Curves.tla / PwmMap.tla definitions + TLC validation of real ascending sweeps (curves, monotone curve graphs, controller with direct loop over curve values 0..255)',
+         'Consecutive monotonicity on dense real sweeps implies monotonicity for all pairs on the grid.'),
  'C09': (MC, '6 (C09)', 'TLC exhaustive check of Daemon.tla with fault actions (every placement of up to 2 faults) + TLC monitoring of real closed loops (sensor + monitor + curve + controller.Run + plant) with enumerated injected faults, run in child processes so that a crash is an observation',
          'All single faults (kind x backend combination x curve type x cycle index) in the quick tier, plus pairs in the thorough tier; no-crash and continue-or-hand-back evaluated on every recorded state.'),
+ 'C12': (MC, '6 (C12)', 'TLC check of PwmMap.tla (definition) + TLC validation of request->written vectors recorded from the real ExtractKeysWithDistinctValues / FindClosest / controller.setPwm for all maps over a key universe and random full-size maps',
+         'Exhaustive over all maps of the key universe (4^6 quick, 4^8 thorough) x all requests -50..305.'),
+ 'C13': (MC, '6 (C13)', 'TLC check of FanLimits.tla (definition and setter semantics, repeated attachment) + TLC validation of records of the real NewFan / AttachFanRpmCurveData / getters (conformance with the model and the C13 formulas)',
+         'Exhaustive over a 5-key x 5-RPM data universe x 8 configured combinations x neverStop, plus random realistic data with second attachments.'),
  'C15': (MC, '6 (C15)', 'TLC exhaustive check of Daemon.tla over all start/stop/reset/init sequences + TLC monitoring of the real controller.Run restarted on one bbolt database with CLI bodies in between',
          'Sweeps and RPM-curve measurements between process start and first regulation cycle are counted from hook events; reuse, config-map-no-sweep and at-most-once hold in every model state and on every recorded history. The README promise for minPwm+maxPwm is a recorded known finding (D10).'),
  'C16': (MC, '6 (C16)', 'TLC exhaustive check of Daemon.tla (mutex, all interleavings of 2-3 fans) + TLC monitoring of real controllers of 2-4 fans in real time (option false) and in a bubble (option true, overlap observed)',
